@@ -29,6 +29,7 @@ import itertools
 
 import vf.loader  # noqa: F401
 from vf import yq
+from vf import core
 from vf.core import Result, chunks
 from models import evalorder as M
 from models import interp as I
@@ -673,6 +674,64 @@ def job_model(part, tier, k, K):
     return res
 
 
+# ---------------------------------------------------------------------------------
+# method calls on a yaqlized host object: the `.` overload of yaqlized.py evaluates the arguments itself
+# ---------------------------------------------------------------------------------
+YAQLIZED_CALLS = [
+    ('$o.m(tick(1, 10))', [1]),
+    ('$o.m(tick(1, 10), tick(2, 20))', [1, 2]),
+    ('$o.m(tick(1, 10), c => tick(2, 30))', [1, 2]),
+    ('$o.m(c => tick(1, 30), d => tick(2, 40))', [1, 2]),
+    ('$o.m(tick(1, 10), tick(2, 20), d => tick(3, 40), c => tick(4, 30))', [1, 2, 3, 4]),
+    ('$o.m(tick(1, 10) + tick(2, 1), b => tick(3, 20) + tick(4, 1))', [1, 2, 3, 4]),
+    ('$o.m(tick(1, 10), tick(2, 20)).m(tick(3, 1), c => tick(4, 2))', [1, 2, 'body', 3, 4]),
+    ('tick(1, $o).m(tick(2, 10), c => tick(3, 30))', [1, 2, 3]),
+]
+
+
+def job_yaqlized():
+    """Eager arguments of a method call on a yaqlized object: once each, left to right (positional, then keyword
+    arguments in the order written), all before the method body runs."""
+    from yaql import yaqlization
+    res = Result()
+    log = []
+
+    @yaqlization.yaqlize(auto_yaqlize_result=True)
+    class Host(object):
+        def m(self, a=0, b=0, c=0, d=0):
+            log.append('body')
+            return self
+    for text, ticks in YAQLIZED_CALLS:
+        del log[:]
+        ctx = yq.root().create_child_context()
+
+        def tick(ident, value=None):
+            log.append(ident)
+            return value
+        ctx.register_function(tick, name='tick')
+        ctx['o'] = Host()
+        case = {'kind': 'yaqlized', 'text': text}
+        core.CURRENT_CASE[0] = case
+        res.case(('yaqlized', text))
+        res.evaluations += 1
+        res.transitions += 1
+        res.nontrivial += 1
+        try:
+            yq.engine()(text).evaluate(context=ctx)
+            err = None
+        except Exception as e:
+            err = type(e).__name__
+        expected = list(ticks) if 'body' in ticks else list(ticks) + ['body']
+        if text.count('.m(') == 2 and 'body' in ticks:
+            expected = list(ticks) + ['body']
+        res.outcomes['yaqlized %s' % (err or 'value')] += 1
+        if err is not None or log != expected:
+            res.fail('order construct=yaqlized-method-call', case,
+                     '%s: evaluation trace %r (%s), expected %r' % (text, list(log), err or 'value', expected), size=len(text))
+    res.sample({'part': 'yaqlized', 'text': YAQLIZED_CALLS[2][0]}, 1)
+    return res
+
+
 def jobs(tier, seed):
     out = []
     nd = 12 if tier == 'quick' else 16
@@ -685,6 +744,7 @@ def jobs(tier, seed):
     for k in range(ns):
         out.append(('stream-%02d' % k, 'job_model', ('stream', tier, k, ns)))
     out.append(('binders', 'job_model', ('binders', tier, 0, 1)))
+    out.append(('yaqlized', 'job_yaqlized', ()))
     return out
 
 
@@ -711,6 +771,10 @@ def finish(total, tier):
 
 
 def replay(case):
+    if case['kind'] == 'yaqlized':
+        r = job_yaqlized()
+        hit = [f.detail for f in r.failures.values() if f.case['text'] == case['text']]
+        return {'observed': hit, 'expected': 'arguments once each, left to right, before the body', 'ok': not hit}
     if case['kind'] == 'generic':
         log, out = observe(case['text'])
         operands = [tuple(o) for o in case['operands']]
